@@ -267,7 +267,10 @@ int lha_input_stream_skip(LHAInputStream *stream, size_t bytes)
 
 			result = do_read(stream, data, len);
 
-			if (result < 0) {
+			// End of input (zero) must end the skip as well,
+			// or we would loop here forever.
+
+			if (result <= 0) {
 				return 0;
 			}
 
